@@ -423,6 +423,16 @@ class Layout:
         out.append("}")
         if self.macro_idents:
             body = out[head:]
+            # the base type and (once) an access specifier travel through the macro as identifiers too
+            bt = self.base_ty()
+            if body[0].startswith(f"#[bitfield({bt}"):
+                body[0] = body[0].replace(f"#[bitfield({bt}", "#[bitfield($vbase", 1)
+                mparams.append("$vbase:ident"); margs.append(bt)
+            for k_, l_ in enumerate(body):
+                if l_.strip().startswith("#[bit") and l_.rstrip().endswith(", rw)]"):
+                    body[k_] = l_.rstrip()[:-len("rw)]")] + "$vacc)]"
+                    mparams.append("$vacc:ident"); margs.append("rw")
+                    break
             out = out[:head] + ["macro_rules! vmk_fields { (" + ", ".join(mparams) + ") => {"] + ["    " + l for l in body] + ["} }", "vmk_fields!(" + ", ".join(margs) + ");"]
         if macro_default is not None:
             body = out[head:]
